@@ -89,9 +89,9 @@ func VerifH05aAvailability() {
 		p = &Header{Names: []string{"X-Key"}}
 	}
 	if pk == 3 || pk == 4 || pk == 6 {
-		// the real FNV-1a hash stays in the query only for small pools (bvurem of a 32-bit product);
-		// larger pools are covered by VerifH05aHashed with the hash value summarised
-		verifrt.Assume(n <= 3)
+		// hash policies with a non-empty key are VerifH05aHashed's subject (hash value summarised);
+		// here only the empty-key forms (Header falls back to round robin) keep the real FNV-1a
+		verifrt.Assume(klen == 0)
 	}
 	got := p.Select(pool, req)
 	anyAvail := false
@@ -228,13 +228,27 @@ func VerifH05aHashed() {
 	verifrt.Assert(zzAvail(got, u.MaxFails), "result-available")
 }
 
-// VerifH05bHashStable: hash policies are functions of the key while availability is unchanged.
+// VerifH05bHashStable: hash policies are functions of the key while availability is unchanged:
+// the real hash is a function of its input, and hostByHashing has no hidden state.
 func VerifH05bHashStable() {
+	klen := verifrt.IntRange("keylen", 0, 3)
+	key := verifrt.String("key", klen)
+	verifrt.Assert(hash(key) == hash(key), "hash-is-a-function")
 	n := verifrt.IntRange("n", 1, 4)
 	pool, _ := zzPool(n)
-	klen := verifrt.IntRange("keylen", 0, 2)
-	key := verifrt.String("key", klen)
-	a := hostByHashing(pool, key)
-	b := hostByHashing(pool, key)
+	hv := verifrt.Uint32("hash")
+	k2 := "k"
+	if verifrt.Symbolic() {
+		verifrt.Stub("github.com/tmpim/casket/caskethttp/proxy.hash", func(string) uint32 { return hv })
+	} else {
+		for k := 0; k < 1000000; k++ {
+			k2 = strconv.Itoa(k)
+			if hash(k2)%uint32(n) == hv%uint32(n) {
+				break
+			}
+		}
+	}
+	a := hostByHashing(pool, k2)
+	b := hostByHashing(pool, k2)
 	verifrt.Assert(a == b, "same-key-same-backend")
 }
